@@ -288,7 +288,7 @@ class VecHelpers(object):
                 self._summarise(name, func)
 
     def _summarise(self, name, func):
-        body = [s for s in func.node.body
+        body = [s for s in func.raw.body
                 if not (isinstance(s, ast.Expr) and
                         isinstance(s.value, ast.Constant))]
         if len(body) != 1 or not isinstance(body[0], ast.Return):
